@@ -139,6 +139,60 @@ Definition run_serde (ty caps pts arg : bytes) : bytes :=
            | _ => err "type" end
   | _, _ => err "parse" end.
 
+(* ---------- C20 dm <name>: deserializing hand-made trees that no Serialize impl produces (unknown / repeated / missing keys, trailing
+   elements, partial Params ...).  The model renders its tree as JSON text; the harness holds the same text and feeds it to serde_json. ---------- *)
+Definition S (b : blit) : sval := VStr b.
+Definition kv (k : blit) (v : sval) : sval * sval := (VStr k, v).
+Definition null_wit : sval := VMap [kv "surjection_proof" VUnit; kv "rangeproof" VUnit].
+Definition probe_result {A} (ser : bool -> A -> sval) (de : bool -> sval -> res A) (t : sval) : bytes :=
+  render_json t ++ sp ++ match de true t with Ok y => "ok "%lb ++ render_json (json_view (ser true y)) | Err _ => "err"%lb end.
+Definition all_pts (_ : bytes) : bool := false.
+Definition run_probe (name : bytes) : bytes :=
+  let P := probe_result ser_params de_params in
+  let V := probe_result ser_value (de_value all_pts) in
+  let O := probe_result ser_txout (de_txout all_pts) in
+  let E := probe_result ser_extdata de_extdata in
+  if is_ty name "params-partial" then P (VMap [kv "signblockscript" (S "51")])
+  else if is_ty name "params-full-and-elided" then P (VMap [kv "elided_root" (S "0000000000000000000000000000000000000000000000000000000000000001"); kv "signblockscript" (S "51"); kv "signblock_witness_limit" (VU64 7);
+                                                    kv "fedpeg_program" (S "0014"); kv "fedpegscript" (VSeq [VU64 1; VU64 255]); kv "extension_space" (VSeq [S "AbCd"; VSeq []])])
+  else if is_ty name "params-compact-unknown-key" then P (VMap [kv "foo" (VSeq [VUnit; VMap []]); kv "signblockscript" (S ""); kv "signblock_witness_limit" (VU64 4294967295);
+                                                        kv "elided_root" (S "ff00000000000000000000000000000000000000000000000000000000000000")])
+  else if is_ty name "params-bad-limit" then P (VMap [kv "signblockscript" (S "51"); kv "signblock_witness_limit" (S "7")])
+  else if is_ty name "params-limit-overflow" then P (VMap [kv "signblock_witness_limit" (VU64 4294967296)])
+  else if is_ty name "params-fedpegscript-bad-byte" then P (VMap [kv "fedpegscript" (VSeq [VU64 256])])
+  else if is_ty name "params-array" then P (VSeq [])
+  else if is_ty name "value-trailing" then V (VSeq [VU64 0; VU64 0])
+  else if is_ty name "value-explicit-missing" then V (VSeq [VU64 1])
+  else if is_ty name "value-explicit-trailing" then V (VSeq [VU64 1; VU64 5; VU64 6])
+  else if is_ty name "value-bad-tag" then V (VSeq [VU64 3])
+  else if is_ty name "value-tag-256" then V (VSeq [VU64 256])
+  else if is_ty name "value-tag-string" then V (VSeq [S "0"])
+  else if is_ty name "value-empty" then V (VSeq [])
+  else if is_ty name "value-u64-max" then V (VSeq [VU64 1; VU64 18446744073709551615])
+  else if is_ty name "value-u64-overflow" then V (VSeq [VU64 1; VU64 18446744073709551616])
+  else if is_ty name "value-conf-badhex" then V (VSeq [VU64 2; S "zz"])
+  else if is_ty name "value-map" then V (VMap [])
+  else if is_ty name "txout-dup-first-invalid" then O (VMap [kv "asset" (VSeq [VU64 0]); kv "value" (VSeq [VU64 7]); kv "value" (VSeq [VU64 0]); kv "nonce" (VSeq [VU64 0]); kv "script_pubkey" (S ""); kv "witness" null_wit])
+  else if is_ty name "txout-dup-last-wins" then O (VMap [kv "asset" (VSeq [VU64 0]); kv "value" (VSeq [VU64 1; VU64 0]); kv "value" (VSeq [VU64 0]); kv "nonce" (VSeq [VU64 0]); kv "script_pubkey" (S "AB"); kv "witness" null_wit; kv "extra" VUnit])
+  else if is_ty name "txout-missing-nonce" then O (VMap [kv "asset" (VSeq [VU64 0]); kv "value" (VSeq [VU64 0]); kv "script_pubkey" (S ""); kv "witness" null_wit])
+  else if is_ty name "txout-as-array" then O (VSeq [VSeq [VU64 0]; VSeq [VU64 0]; VSeq [VU64 0]; S ""; null_wit])
+  else if is_ty name "txout-odd-hex-script" then O (VMap [kv "asset" (VSeq [VU64 0]); kv "value" (VSeq [VU64 0]); kv "nonce" (VSeq [VU64 0]); kv "script_pubkey" (S "5"); kv "witness" null_wit])
+  else if is_ty name "txout-nonce-31" then O (VMap [kv "asset" (VSeq [VU64 0]); kv "value" (VSeq [VU64 0]); kv "nonce" (VSeq [VU64 1; VSeq (repeat (VU64 9) 31)]); kv "script_pubkey" (S ""); kv "witness" null_wit])
+  else if is_ty name "txout-nonce-33" then O (VMap [kv "asset" (VSeq [VU64 0]); kv "value" (VSeq [VU64 0]); kv "nonce" (VSeq [VU64 1; VSeq (repeat (VU64 9) 33)]); kv "script_pubkey" (S ""); kv "witness" null_wit])
+  else if is_ty name "txout-nonce-32" then O (VMap [kv "asset" (VSeq [VU64 0]); kv "value" (VSeq [VU64 0]); kv "nonce" (VSeq [VU64 1; VSeq (repeat (VU64 9) 32)]); kv "script_pubkey" (S ""); kv "witness" null_wit])
+  else if is_ty name "extdata-challenge-only" then E (VMap [kv "challenge" (S "51")])
+  else if is_ty name "extdata-solution-only" then E (VMap [kv "solution" (S "51")])
+  else if is_ty name "extdata-both-kinds" then E (VMap [kv "current" (VMap []); kv "proposed" (VMap []); kv "signblock_witness" (VSeq []); kv "challenge" (S "51"); kv "solution" (S "")])
+  else if is_ty name "extdata-dynafed-partial-params" then E (VMap [kv "current" (VMap [kv "signblockscript" (S "51")]); kv "proposed" (VMap []); kv "signblock_witness" (VSeq [VSeq [VU64 1]; VSeq []])])
+  else if is_ty name "extdata-empty" then E (VMap [])
+  else if is_ty name "secrets-dup" then probe_result ser_secrets de_secrets (VMap [kv "value" (VU64 1); kv "value" (VU64 1)])
+  else if is_ty name "locktime-two-entries" then probe_result (fun _ => ser_locktime) (fun _ => de_locktime) (VMap [kv "Blocks" (VU64 1); kv "Seconds" (VU64 2)])
+  else if is_ty name "locktime-lowercase" then probe_result (fun _ => ser_locktime) (fun _ => de_locktime) (VMap [kv "blocks" (VU64 1)])
+  else if is_ty name "locktime-number" then probe_result (fun _ => ser_locktime) (fun _ => de_locktime) (VU64 1)
+  else if is_ty name "outpoint-no-prefix" then probe_result ser_outpoint de_outpoint (S "0100000000000000000000000000000000000000000000000000000000000000:7")
+  else if is_ty name "outpoint-as-map" then probe_result ser_outpoint de_outpoint (VMap [kv "txid" (S "0100000000000000000000000000000000000000000000000000000000000000"); kv "vout" (VU64 7)])
+  else err "probe".
+
 (* C20 lj <Variant> <n>: LockTime from the JSON {"<Variant>": n}, printed and parsed back *)
 Definition run_locktime_json (variant n : bytes) : bytes :=
   match N_of_dec n with
@@ -157,5 +211,6 @@ Definition run (args : list bytes) : bytes :=
         | Some s => show_hex s ++ sp ++ run_parse ty s
         | None => err "value" end
       else err "kind"
+  | [k; name] => if bytes_eqb k "dm"%lb then run_probe name else err "kind"
   | [k; ty; caps; pts; a] => if bytes_eqb k "sd"%lb then run_serde ty caps pts a else err "kind"
   | _ => err "args" end.
